@@ -497,11 +497,11 @@ def register_whole(R):
     def gfw_setup(S):
         t = wf_tree8(S)
         G = Obj(Ghost8, dict(at=SArr(z3.K(I_, z3.IntVal(-1)), nof(t), "int", name="at")))
-        return dict(self=t, G8=G)
+        return dict(self=t, __ghost__=dict(G8=G))
 
     def gfw_J(E, v, ENT, LEFT, ctx):
         A, ln = list_view8(v["furcations"])
-        at = v["G8"].fields["at"].arr
+        at = E.spec_extra["G8"].fields["at"].arr
         a, x = z3.Int(fresh_name("a")), z3.Int(fresh_name("x"))
         inl = lambda t: z3.And(t >= 0, t < ln)
         return z3.And(ln >= 0,
@@ -510,7 +510,7 @@ def register_whole(R):
 
     def gfw_ghost_leave(E, v, x, ctx):
         A, ln = list_view8(v["furcations"])
-        G = v["G8"]
+        G = E.spec_extra["G8"]
         G.fields["at"].arr = z3.If(ctx.nkids(x) > 1, z3.Store(G.fields["at"].arr, x, ln - 1), G.fields["at"].arr)
 
     def two_rows(t, x):
@@ -547,19 +547,27 @@ def register_whole(R):
         P, n = col(t, "pid").arr, nof(t)
         x, a, b = z3.Int(fresh_name("x")), z3.Int(fresh_name("a")), z3.Int(fresh_name("b"))
         k0, k1 = ctx.kid(x, 0), ctx.kid(x, 1)
-        E.prove("Tree.get_furcations/step/the-first-two-children-are-two-rows-naming-the-node-as-parent",
+        fn = (E.cur_key or "Tree.get_furcations").split(":")[-1]
+        E.prove(f"{fn}/step/the-first-two-children-are-two-rows-naming-the-node-as-parent",
                 z3.ForAll([x], z3.Implies(z3.And(ctx.R(x), ctx.nkids(x) > 1), z3.And(0 <= k0, k0 < k1, k1 < n, sel(P, k0) == x, sel(P, k1) == x))), "annotation")
-        E.prove("Tree.get_furcations/step/two-rows-naming-the-node-as-parent-are-two-children",
+        E.prove(f"{fn}/step/two-rows-naming-the-node-as-parent-are-two-children",
                 z3.ForAll([x, a, b], z3.Implies(z3.And(ctx.R(x), 0 <= a, a < b, b < n, sel(P, a) == x, sel(P, b) == x), ctx.nkids(x) > 1)), "annotation")
-        E.prove("Tree.get_furcations/step/more-than-one-child-iff-two-rows-name-the-node-as-parent",
+        E.prove(f"{fn}/step/more-than-one-child-iff-two-rows-name-the-node-as-parent",
                 z3.ForAll([x], z3.Implies(ctx.R(x), (ctx.nkids(x) > 1) == two_rows(t, x))), "annotation")
 
     GFW = ["handles-on-this-tree", "every-handle-is-a-node-with-two-or-more-children", "every-node-with-two-or-more-children-is-listed", "each-once"]
     R.add(f"{TREE}:Tree.get_furcations", prop="C08", setup=gfw_setup,
           ensures=[(w, gfw_post(w)) for w in GFW],
-          options=dict(OPTS, traverse_rule=Rule(gfw_J, modifies=[("furcations", "int"), "G8"], leave_kind="oref", ghost_leave=gfw_ghost_leave),
+          options=dict(OPTS, traverse_rule=Rule(gfw_J, modifies=[("furcations", "int"), lambda E: E.spec_extra["G8"]], leave_kind="oref", ghost_leave=gfw_ghost_leave),
                        hints={"post/every-handle-is-a-node-with-two-or-more-children": gfw_hint}),
           notes="whole function, trees of any size (traverse client rule); the input tree is frozen")
+
+    # ---------------------------------------------------------------- Tree.get_bifurcations: the deprecated alias, same contract (get_furcations is inlined)
+    R.add(f"{TREE}:Tree.get_bifurcations", prop="C08", setup=gfw_setup,
+          ensures=[(w, gfw_post(w)) for w in GFW],
+          options=dict(OPTS, traverse_rule=Rule(gfw_J, modifies=[("furcations", "int"), lambda E: E.spec_extra["G8"]], leave_kind="oref", ghost_leave=gfw_ghost_leave),
+                       hints={"post/every-handle-is-a-node-with-two-or-more-children": gfw_hint}),
+          notes="thin wrapper of get_furcations (the deprecation warning of the decorator is not modelled)")
 
     # ================================================================ Tree.get_paths as a whole
     # property: "There is exactly one root-to-tip path per tip".  Values handed through the traversal: enter -> the root-to-node chain
